@@ -35,7 +35,7 @@ contract(M + "quso_to_qubo", props=["C04", "C19"],
 contract(M + "pubo_to_puso.<locals>.generate_new_key_value", props=["C04", "C19"],
          instances=[{"k": "key"}],
          gen={"item": ("key", "value"), "kinds": ("key", "real"), "sum": "value * smono(key)", "total": "bmono(k)",
-              "each": "implies(matvalid(k), matvalid(key)) and keyanc(key) <= keyanc(k)"},
+              "each": "implies(matvalid(k), matvalid(key)) and keyanc(key) <= keyanc(k) and klen(key) <= klen(k)"},
          decreases="klen(k)",
          loops={1: {"invariant": "yielded == xv(k[0]) * visited"}})
 
@@ -51,9 +51,14 @@ contract(M + "pubo_to_puso", props=["C04", "C19"],
          requires=["wf(P) if not typeis(P, 'dict') else True"],
          returns=_rtype("PUBOMatrix", "PUSOMatrix", "PUSO"),
          ensures=["sden(result) == bden(P)", "wf(result)", "isfresh(result)", _typerule("P", "PUBOMatrix", "PUSOMatrix", "PUSO"),
-                  "implies(keys_ancbelow(P, gn()), keys_ancbelow(result, gn()))"],
-         loops={1: {"invariant": "sden(H) == bden(visited) and wf(H) and implies(keys_ancbelow(P, gn()), keys_ancbelow(H, gn()))"},
-                2: {"invariant": "sden(H) == bden(visited1) + v * visited and wf(H) and implies(keys_ancbelow(P, gn()), keys_ancbelow(H, gn()))"}})
+                  "implies(keys_ancbelow(P, gn()), keys_ancbelow(result, gn()))",
+                  # the result reports (at least) the labels of its terms as variables, and a model without
+                  # non-constant terms converts to one without
+                  "keys_within(result, result._variables)", "implies(allconst(P), allconst(result))"],
+         loops={1: {"invariant": "sden(H) == bden(visited) and wf(H) and implies(keys_ancbelow(P, gn()), keys_ancbelow(H, gn())) and "
+                                 "keys_within(H, H._variables) and implies(allconst(visited), allconst(H))"},
+                2: {"invariant": "sden(H) == bden(visited1) + v * visited and wf(H) and implies(keys_ancbelow(P, gn()), keys_ancbelow(H, gn())) and "
+                                 "keys_within(H, H._variables) and implies(allconst(visited1) and klen(k) == 0, allconst(H))"}})
 
 contract(M + "puso_to_pubo", props=["C04", "C19"],
          instances=[{"H": k} for k in ("termdict", "model:PUSOMatrix", "model:PUSO", "model:PCSO", "model:QUSO", "model:QUSOMatrix")],
